@@ -2,7 +2,7 @@ SPECIFICATION Spec
 CONSTANTS
   Depth = 2
   DeepIds = {2, 3}
-  BaseIds = {1, 2, 3, 4, 5}
+  BaseIds = {1, 2, 3, 4, 5, 6}
   KindIds = {1, 2, 3}
   FinalKindIds = {4, 5}
   SampleMod = 1
